@@ -71,6 +71,28 @@ def case_failures(seed):
         dth = abs((th2 - th + 90) % 180 - 90)
         if abs(sx2 - sx) > 1e-3 * sx or abs(sy2 - sy) > 1e-3 * sy or (dth > 0.01 and sx / sy > 1.05):
             out.append(("ellipse_roundtrip", "ellipse (%.3f,%.3f,%.2f) -> sky -> (%.3f,%.3f,%.2f)" % (sx, sy, th, sx2, sy2, th2)))
+    # consecutive, nearly identical queries must be answered independently; array inputs must not be modified
+    x, y = rnd.uniform(1, 300), rnd.uniform(1, 400)
+    ra, dec = helper.pix2sky([x, y])
+    p1 = helper.sky2pix([ra, dec])
+    dra = 0.3 * scale * 1e-3 / max(np.cos(np.radians(dec)), 1e-3)
+    p2 = helper.sky2pix([ra + dra, dec + 3e-8])
+    q2 = w.all_world2pix([[ra + dra, dec + 3e-8]], 1)[0]
+    if abs(p2[0] - q2[1]) > 1e-6 or abs(p2[1] - q2[0]) > 1e-6:
+        out.append(("position_roundtrip.sky_pixel_sky", "second of two nearly identical sky2pix queries is off by (%.2e, %.2e) pixel" % (
+            p2[0] - q2[1], p2[1] - q2[0])))
+    for name, call in (("pix2sky", lambda a: helper.pix2sky(a)), ("pix2sky_vec", lambda a: helper.pix2sky_vec(a, 3.0, 30.0)),
+                       ("pix2sky_ellipse", lambda a: helper.pix2sky_ellipse(a, 5.0, 3.0, 20.0))):
+        arr = np.array([x, y], dtype=float)
+        keep = arr.copy()
+        call(arr)
+        if not np.array_equal(arr, keep):
+            out.append(("inputs_not_modified", "%s modified the pixel array it was given" % name))
+    arr = np.array([ra, dec], dtype=float)
+    keep = arr.copy()
+    helper.sky2pix(arr); helper.sky2pix_vec(arr, 0.01, 10.0); helper.sky2pix_ellipse(arr, 0.01, 0.005, 10.0)
+    if not np.array_equal(arr, keep):
+        out.append(("inputs_not_modified", "a sky2pix* call modified the position array it was given"))
     return out[:4]
 
 
